@@ -74,19 +74,24 @@ where
             // (a subscriber that finished while handling this item needs no further timer)
             let sctl = sctl_next.clone();
             let scheduler_ctor = scheduler_ctor.clone();
-            *timer.write().unwrap() = Some(
-              observables::interval(dur, move || scheduler_ctor.call(()))
-                .take(1)
-                .subscribe(
-                  move |_| {
-                    sctl.sink_error(RxError::from_error(
-                      std::io::Error::from(std::io::ErrorKind::TimedOut),
-                    ));
-                  },
-                  junk_error!(),
-                  junk_complete!(),
-                ),
-            );
+            let armed = observables::interval(dur, move || scheduler_ctor.call(()))
+              .take(1)
+              .subscribe(
+                move |_| {
+                  sctl.sink_error(RxError::from_error(
+                    std::io::Error::from(std::io::ErrorKind::TimedOut),
+                  ));
+                },
+                junk_error!(),
+                junk_complete!(),
+              );
+            // another `next` may have armed a timer meanwhile (an item pushed from inside the
+            // subscriber's callback, or a second emitting thread): cancel it instead of losing it,
+            // otherwise it fires although items keep arriving
+            let previous = timer.write().unwrap().replace(armed);
+            if let Some(previous) = previous {
+              previous.unsubscribe();
+            }
             if !sctl_next.is_subscribed() {
               // ended by another thread while the timer was being armed: the finalizer may have
               // run before the timer was stored, so cancel it here
